@@ -563,6 +563,14 @@ MUTANTS = [
     M("benign-I7-4-direct-writes", ["C06", "C13", "C17"], base="I7-4", benign=True),
     M("I7-4-suit-first", ["C13", "C06"], (CD, "        f.write_str(char::from(self.0).encode_utf8(&mut buffer))?;\n        f.write_str(char::from(self.1).encode_utf8(&mut buffer))", "        f.write_str(char::from(self.1).encode_utf8(&mut buffer))?;\n        f.write_str(char::from(self.0).encode_utf8(&mut buffer))"), base="I7-4"),
     M("I7-4-rank-twice", ["C13", "C06"], (CD, "        f.write_str(char::from(self.1).encode_utf8(&mut buffer))\n", "        f.write_str(char::from(self.0).encode_utf8(&mut buffer))\n"), base="I7-4"),
+    M("benign-I3-1-iterator-min", ["C03", "C11", "C08"], base="I3-1", benign=True),
+    M("I3-1-max", ["C03", "C11"], (SD, "            .map(|player| player.hand.power_index())\n            .min();", "            .map(|player| player.hand.power_index())\n            .max();"), base="I3-1"),
+    M("I3-1-skip-first", ["C03", "C11"], (SD, "            .iter()\n            .map(|player| player.hand.power_index())\n            .min();", "            .iter()\n            .skip(1)\n            .map(|player| player.hand.power_index())\n            .min();"), base="I3-1"),
+    M("I3-1-flag-ne", ["C03", "C11"], (SD, "player.win = Some(player.hand.power_index()) == strongest_index;", "player.win = Some(player.hand.power_index()) != strongest_index;"), base="I3-1"),
+    M("benign-I1-3-lockstep-walk", ["C01", "C07", "C08"], base="I1-3", benign=True),
+    M("I1-3-not-reversed", ["C01", "C07"], (MH, "RANKS.iter().zip(card_len_each_rank.iter().rev())", "RANKS.iter().zip(card_len_each_rank.iter())"), base="I1-3"),
+    M("I1-3-hand-len-6", ["C01", "C07"], (MH, "const HAND_LEN: u8 = 7;", "const HAND_LEN: u8 = 6;"), base="I1-3"),
+    M("I1-3-skip-one", ["C01", "C07"], (MH, "RANKS.iter().zip(card_len_each_rank.iter().rev())", "RANKS.iter().zip(card_len_each_rank.iter().rev().skip(1))"), base="I1-3"),
     M("benign-F3-3-computed-flush-weight", ["C01", "C07", "C08"], base="F3-3", benign=True),
     M("F3-3-unreversed", ["C01", "C07"], (MH, "1 << (12 - u8::from(card.rank()))", "1 << u8::from(card.rank())"), base="F3-3"),
     M("F3-3-off-by-one", ["C01", "C07"], (MH, "1 << (12 - u8::from(card.rank()))", "1 << (13 - u8::from(card.rank()))"), base="F3-3"),
